@@ -69,11 +69,13 @@ Section Chain.
   Variables (lits : list string) (ipre : N) (pre next : string).
   Hypothesis Hpre : nthN lits ipre = Some pre.
   Hypothesis Hnodup : NoDup lits.
-  Hypothesis Hplain : forall l, In l lits -> plain l = true.
+  (** any variant with the repaired stop test; glob-free literals unless the operands are quoted ([Repaired]) *)
+  Variable var : variant.
+  Hypothesis Hvar : var <> Pinned.
+  Hypothesis Hdom : var = Repaired \/ (forall l, In l lits -> plain l = true).
   Hypothesis Hprint : forall l, In l lits -> printable_str l = true.
   Hypothesis Hnonempty : forall l, In l lits -> l <> EmptyString.
   Hypothesis Hsorted : sorted_len lits.
-
   Let T := chain_sub_tables lits ipre.
   Let tabs := chain_alltables lits ipre next.
   Let st1 := map (fun x : N * string => (fst x, 2)) (chain_vals lits ipre).
@@ -87,8 +89,8 @@ Section Chain.
   Lemma chain_lits_of : lits_of T = indexed_from 0 lits.
   Proof. unfold lits_of. now rewrite chain_literal_texts. Qed.
 
-  Lemma chain_all_plain : all_plain (lits_of T).
-  Proof. rewrite chain_lits_of. intros id l H. apply Hplain. eapply in_indexed_in; eauto. Qed.
+  Lemma chain_all_plain : (forall l, In l lits -> plain l = true) -> all_plain (lits_of T).
+  Proof. intros Hplain. rewrite chain_lits_of. intros id l H. apply Hplain. eapply in_indexed_in; eauto. Qed.
 
   Lemma chain_sorted : sorted_desc (lits_of T).
   Proof. rewrite chain_lits_of. now apply sorted_len_desc. Qed.
@@ -182,6 +184,14 @@ Section Chain.
   Lemma pre_in : In pre lits.
   Proof. unfold nthN in Hpre. eapply nth_error_In; eauto. Qed.
 
+  Lemma chain_strdom w : In w lits \/ (var = Repaired \/ plain w = true) -> strdom var (lits_of T) (pre ++ w).
+  Proof.
+    intros Hw. destruct Hdom as [Hr|Hplain]; [now left|].
+    destruct Hw as [Hw|[Hw|Hw]]; [|now left|].
+    - right. split; [now apply chain_all_plain|]. now rewrite plain_app, (Hplain pre pre_in), (Hplain w Hw).
+    - right. split; [now apply chain_all_plain|]. now rewrite plain_app, (Hplain pre pre_in), Hw.
+  Qed.
+
   Lemma length_pos s : s <> EmptyString -> (0 < String.length s)%nat.
   Proof. destruct s; [congruence|cbn; lia]. Qed.
 
@@ -190,18 +200,17 @@ Section Chain.
 
   Theorem chain_value_matched fuel e v log :
     is_value v ->
-    sw_loop (S (S (S fuel))) Fixed false tabs e T (pre ++ v) 0 0 log
+    sw_loop (S (S (S fuel))) var false tabs e T (pre ++ v) 0 0 log
     = Ok (true, 2, String.length (pre ++ v), log).
   Proof.
     intros Hv. destruct Hv as [Hin Hne].
-    assert (Hpw : plain (pre ++ v) = true).
-    { rewrite plain_app. rewrite (Hplain pre pre_in), (Hplain v Hin). reflexivity. }
+    pose proof (chain_strdom v (or_introl Hin)) as Hpw.
     pose proof (length_pos v (Hnonempty v Hin)) as Lv.
-    rewrite (fixed_piece_consumed _ false tabs e T (pre ++ v) 0 [(ipre, 1)] 0 ipre pre 1 log
-               chain_all_plain Hpw chain_mlit0 chain_state0_unique chain_pre_in (assocN_single_same ipre 1)).
+    rewrite (fixed_piece_consumed var _ false tabs e T (pre ++ v) 0 [(ipre, 1)] 0 ipre pre 1 log
+               Hvar Hpw chain_mlit0 chain_state0_unique chain_pre_in (assocN_single_same ipre 1)).
     - cbn [Nat.add].
-      apply (fixed_value_recognised fuel tabs e T (pre ++ v) 1 st1 (String.length pre) v 2 log
-               chain_all_plain Hpw chain_sorted chain_mlit1).
+      apply (fixed_value_recognised var fuel tabs e T (pre ++ v) 1 st1 (String.length pre) v 2 log
+               Hvar Hpw chain_sorted chain_mlit1).
       + apply sdrop_app.
       + rewrite length_append. lia.
       + apply chain_first_enabled. now split.
@@ -218,7 +227,7 @@ Section Chain.
   Qed.
 
   Theorem chain_subword_matches e v log :
-    is_value v -> subword_matches Fixed tabs e T (pre ++ v) log = Ok (true, log).
+    is_value v -> subword_matches var tabs e T (pre ++ v) log = Ok (true, log).
   Proof.
     intros Hv. unfold subword_matches, subword_matches_from.
     destruct (sw_fuel_ge3 (pre ++ v)) as [f ->].
@@ -240,7 +249,7 @@ Section Chain.
   Proof. reflexivity. Qed.
 
   Lemma chain_walk_value e v :
-    is_value v -> walk Fixed tabs e 0 [(pre ++ v)%string] [] = Ok (Some 1, []).
+    is_value v -> walk var tabs e 0 [(pre ++ v)%string] [] = Ok (Some 1, []).
   Proof.
     intros Hv. cbn [walk].
     rewrite chain_main_mlit0, chain_subtrans0, chain_sub_row. cbn [obind].
@@ -285,10 +294,11 @@ Section Chain.
   Theorem chain_value_recognised e v :
     e_wordbreaks e = EmptyString \/ e_wordbreaks e = default_wordbreaks ->
     is_value v ->
-    run_from Fixed 0 tabs e [(pre ++ v)%string] EmptyString = Ok (mkresult 0 [(next ++ " ")%string] []).
+    run_from var 0 tabs e [(pre ++ v)%string] EmptyString = Ok (mkresult 0 [(next ++ " ")%string] []).
   Proof.
     intros Hw Hv. unfold run_from. rewrite (chain_walk_value e v Hv). cbn [obind].
     rewrite chain_main_maxlevel. cbn [top_levels].
+    replace (if quirky var then @nil string else []) with (@nil string) by (destruct (quirky var); reflexivity).
     rewrite chain_main_clit1, chain_csub1, chain_main_ccmd.
     cbn [map List.app]. rewrite chain_main_lit0.
     cbn [match_fn obind top_subs_level List.app].
@@ -328,13 +338,13 @@ Section Chain.
 
   Theorem chain_subword_complete e p log :
     e_ignore_case e = false ->
-    plain p = true -> printable_str p = true ->
+    (var = Repaired \/ plain p = true) -> printable_str p = true ->
     (exists v, is_value v /\ String.prefix p v = true /\ p <> v) ->
-    subword_complete Fixed tabs e T (pre ++ p) log
+    subword_complete var tabs e T (pre ++ p) log
     = Ok (map (append pre) (filter (String.prefix p) values), log).
   Proof.
     intros Hi Hpp Hpr (v & Hv & Hpv & Hne).
-    assert (Hpw : plain (pre ++ p) = true) by (rewrite plain_app, (Hplain pre pre_in), Hpp; reflexivity).
+    pose proof (chain_strdom p (or_intror Hpp)) as Hpw.
     assert (Hprw : printable_str (pre ++ p) = true) by (rewrite printable_app, (Hprint pre pre_in), Hpr; reflexivity).
     unfold subword_complete, subword_complete_from.
     assert (exists f, sw_fuel T (pre ++ p) = S (S f)) as [f ->].
@@ -342,13 +352,13 @@ Section Chain.
       set (k := (count_entries (t_mlit T) + match t_mcmd T with Some l => count_entries l | None => 0 end)%nat).
       pose proof (length_pos pre pre_nonempty). rewrite length_append.
       destruct (S (String.length pre + String.length p) * S k)%nat as [|f] eqn:E; try lia. now exists f. }
-    rewrite (fixed_piece_consumed _ true tabs e T (pre ++ p) 0 [(ipre, 1)] 0 ipre pre 1 log
-               chain_all_plain Hpw chain_mlit0 chain_state0_unique chain_pre_in (assocN_single_same ipre 1)).
+    rewrite (fixed_piece_consumed var _ true tabs e T (pre ++ p) 0 [(ipre, 1)] 0 ipre pre 1 log
+               Hvar Hpw chain_mlit0 chain_state0_unique chain_pre_in (assocN_single_same ipre 1)).
     2:{ cbn [sdrop]. apply prefix_app. }
     2:{ rewrite length_append. pose proof (length_pos pre pre_nonempty). lia. }
     cbn [Nat.add].
-    destruct (fixed_partial_stops f tabs e T (pre ++ p) 1 st1 (String.length pre) log
-                chain_all_plain Hpw chain_sorted chain_mlit1) as [m Hm].
+    destruct (fixed_partial_stops var f tabs e T (pre ++ p) 1 st1 (String.length pre) log
+                Hvar Hpw chain_sorted chain_mlit1) as [m Hm].
     { rewrite sdrop_app. destruct (value_index v Hv) as [id Hid].
       exists id, v, 2. repeat split; try assumption.
       - now apply vals_in_lits.
@@ -357,7 +367,7 @@ Section Chain.
     assert (Hlist : map (fun id => (stake (String.length pre) (pre ++ p) ++ literal_at T id)%string)
                         (level_row (t_clit T) 0 1) = map (append pre) values).
     { rewrite stake_app, chain_clit1. apply chain_offer_list. }
-    rewrite (levels_offer_extensions 0 tabs e T (pre ++ p) 1 (String.length pre) log Hi Hprw chain_ccmd).
+    rewrite (levels_offer_extensions var 0 tabs e T (pre ++ p) 1 (String.length pre) log Hi Hprw chain_ccmd).
     - rewrite Hlist, offers_as_values. reflexivity.
     - rewrite Hlist, offers_as_values. intros E.
       assert (In (pre ++ v)%string (map (append pre) (filter (String.prefix p) values))) as Hin.
@@ -384,13 +394,14 @@ Section Chain.
 
   Theorem chain_partial_offers e p :
     e_ignore_case e = false -> e_wordbreaks e = EmptyString ->
-    plain p = true -> printable_str p = true ->
+    (var = Repaired \/ plain p = true) -> printable_str p = true ->
     (exists v, is_value v /\ String.prefix p v = true /\ p <> v) ->
-    run_from Fixed 0 tabs e [] (pre ++ p)
+    run_from var 0 tabs e [] (pre ++ p)
     = Ok (mkresult 0 (map (append pre) (filter (String.prefix p) values)) []).
   Proof.
     intros Hi Hw Hpp Hpr Hex. unfold run_from. cbn [walk obind].
     rewrite chain_main_maxlevel. cbn [top_levels].
+    replace (if quirky var then @nil string else []) with (@nil string) by (destruct (quirky var); reflexivity).
     rewrite chain_main_clit0, chain_csub0, chain_main_ccmd. cbn [map List.app obind].
     cbn [top_subs_level]. rewrite chain_subword_tables.
     rewrite (chain_subword_complete e p [] Hi Hpp Hpr Hex). cbn [obind List.app top_subs_level].
